@@ -170,49 +170,71 @@ func (c *checker) handle(ph phase, outs []workerOutcome) bool {
 // recoverCrash re-runs a single seed with the replay file and the schedule streamed to
 // disk, so that a run that ends by killing the process still yields a replay file.
 func (c *checker) recoverCrash(ph phase, seed uint64, class, msg string) json.RawMessage {
-	stream := c.rc.scratch + fmt.Sprintf("/stream-%d.jsonl", seed)
-	os.Remove(stream)
 	ph2 := ph
 	ph2.Extra = map[string]string{}
 	for k, v := range ph.Extra {
 		ph2.Extra[k] = v
 	}
-	ph2.Extra["stream"] = stream
-	job := Job{Engine: ph.Engine, Property: c.prop, Mix: ph.Mix, Mode: ph.Mode, Tier: c.tier,
-		SeedLo: seed, SeedHi: seed + 1, Extra: ph2.Extra}
-	o := c.rc.runJob(ph2, job, 5*time.Minute, 0)
-	f, err := os.Open(stream)
-	if err != nil {
-		die2("phase %s: seed %d killed the engine process (%s) but the diagnostic re-run left no stream (exit %d): %s", ph.Name, seed, class, o.Exit, o.Stderr)
-	}
-	defer f.Close()
-	var doc map[string]interface{}
-	var tape []interface{}
-	sc := bufio.NewScanner(f)
-	sc.Buffer(make([]byte, 1<<20), 1<<28)
-	for sc.Scan() {
-		m, err := decodeGeneric(sc.Bytes())
+	var lastErr string
+	// first alone; if the run is clean then, state kept across calls of the code under test
+	// may be involved: repeat with the preceding seeds as a prelude
+	for _, prelude := range []uint64{0, 1, 2, 4, 8, 16, 32} {
+		if prelude > seed {
+			break
+		}
+		stream := c.rc.scratch + fmt.Sprintf("/stream-%d-%d.jsonl", seed, prelude)
+		os.Remove(stream)
+		ph2.Extra["stream"] = stream
+		job := Job{Engine: ph.Engine, Property: c.prop, Mix: ph.Mix, Mode: ph.Mode, Tier: c.tier,
+			SeedLo: seed - prelude, SeedHi: seed + 1, Extra: ph2.Extra}
+		o := c.rc.runJob(ph2, job, 5*time.Minute, 0)
+		f, err := os.Open(stream)
 		if err != nil {
+			lastErr = fmt.Sprintf("the diagnostic re-run left no stream (exit %d): %s", o.Exit, o.Stderr)
 			continue
 		}
-		switch m["t"] {
-		case "replay":
-			doc, _ = m["replay"].(map[string]interface{})
-		case "tape":
-			tape = append(tape, m["x"])
+		var doc map[string]interface{}
+		var tape []interface{}
+		sc := bufio.NewScanner(f)
+		sc.Buffer(make([]byte, 1<<20), 1<<28)
+		for sc.Scan() {
+			m, err := decodeGeneric(sc.Bytes())
+			if err != nil {
+				continue
+			}
+			switch m["t"] {
+			case "replay": // one per seed of the range: the last one is the run in flight
+				doc, _ = m["replay"].(map[string]interface{})
+				tape = nil
+			case "tape":
+				tape = append(tape, m["x"])
+			}
 		}
+		f.Close()
+		if doc == nil {
+			lastErr = "no replay record in the diagnostic stream"
+			continue
+		}
+		reproduced := o.Summary == nil || o.Violation != nil
+		if !reproduced && ph.Mode != "race" {
+			lastErr = fmt.Sprintf("ran clean when repeated with a prelude of %d seeds", prelude)
+			continue
+		}
+		if n, ok := doc["seed"].(json.Number); ok && n.String() != strconv.FormatUint(seed, 10) && ph.Mode != "race" {
+			lastErr = "the process died on another seed of the prelude"
+			continue
+		}
+		if len(tape) > 0 {
+			doc["tape"] = tape
+		}
+		if prelude > 0 {
+			doc["prelude"] = json.Number(strconv.FormatUint(prelude, 10))
+		}
+		doc["violation"] = map[string]interface{}{"class": class, "message": msg}
+		return encodeGeneric(doc)
 	}
-	if doc == nil {
-		die2("phase %s: seed %d: no replay record in the diagnostic stream", ph.Name, seed)
-	}
-	if o.Summary != nil && o.Violation == nil && ph.Mode != "race" {
-		die2("phase %s: seed %d killed the engine process (%s: %s) but ran clean when repeated alone — not reproducible, refusing to report", ph.Name, seed, class, msg)
-	}
-	if len(tape) > 0 {
-		doc["tape"] = tape
-	}
-	doc["violation"] = map[string]interface{}{"class": class, "message": msg}
-	return encodeGeneric(doc)
+	die2("phase %s: seed %d killed the engine process (%s: %s) but could not be reproduced in a diagnostic re-run (%s) — refusing to report", ph.Name, seed, class, msg, lastErr)
+	return nil
 }
 
 func (c *checker) report(ph phase, raw json.RawMessage, class string, seed uint64) {
